@@ -55,18 +55,29 @@ def spec_env(extra):
     return env
 
 
+MISMATCHES = []  # (label, repr(args), repr(result), clause) of every natively failing clause
+
+
 def check(qual, call, ensures, cases, extra=None):
     bad = 0
     n = 0
     for args in cases:
-        result = call(*args)
+        try:
+            result = call(*args)
+        except Exception as e:  # the real kernel raising on a value of its domain is a failing input as well
+            result = ("raised", type(e).__name__, str(e)[:80])
         env = spec_env(dict(extra(args) if extra else {}, result=result))
         for cl in ensures:
             n += 1
             # `is` between value terms is structural identity in the spec language; natively the recorder builds new tuples
             cl = cl.replace(" is wrapped(", " == wrapped(")
-            if not eval(cl, env):
+            try:
+                holds = bool(eval(cl, env))
+            except Exception:
+                holds = False
+            if not holds:
                 bad += 1
+                MISMATCHES.append({"function": qual, "args": repr(args), "result": repr(result), "clause": cl})
                 if bad <= 3:
                     print(f"  MISMATCH {qual}{args!r} -> {result!r} violates: {cl}")
     print(f"{qual}: {n} native clause evaluations, {bad} mismatches")
@@ -102,6 +113,11 @@ def main():
         bad += check(f"filter_nulls(empty_null={empty_null})", lambda vals, fn=fn: fn(vals), reg["filter_nulls._func"].ensures,
                      [(a,) for n in range(0, 4) for a in itertools.product([None, 1, 2], repeat=n)], extra)
     print("cross-check", "FAILED" if bad else "ok")
+    if "--json" in sys.argv:
+        import json
+
+        json.dump(MISMATCHES, open(sys.argv[sys.argv.index("--json") + 1], "w"), indent=1)
+        sys.exit(0)
     sys.exit(3 if bad else 0)
 
 
